@@ -1205,7 +1205,7 @@ fn main() {
     }
     let header = "From Coq Require Import List ZArith NArith.\nImport ListNotations.\nRequire Import Verif.Base.Cases Verif.Egg.Model Verif.Egg.Rules Verif.Sched.Scheduler.\n";
     let mut w = CaseWriter::new(&o.out, "cases_sched2", header, "check_scase", 300);
-    let ncases = ncases_override.unwrap_or(if o.thorough { 5000 } else { 400 });
+    let ncases = ncases_override.unwrap_or(if o.thorough { 5000 } else { 300 });
     std::panic::set_hook(Box::new(|_| {}));
     let mut viols: Vec<Viol> = Vec::new();
     let mut st = Stats {
